@@ -49,9 +49,9 @@ def run(ctx, rep):
     rep.extra['scope_tables'] = {'writer': {k: list(map(str, v or [])) for k, v in wt.items()},
                                  'reader': {k: list(map(str, v or [])) for k, v in rt.items()},
                                  'spec': {k: list(v) for k, v in SPEC_SCOPES.items()}}
-    for c, scope, cs, delta, pathv in wcalls:
+    for e, scope, cs, _, pathv in wcalls:
         if scope is None or cs is None:
-            rep.unproven('R1', 'writer/unrecognised-write', c.where(), 'per-scope write with unrecognised delta/path: %s -> %s' % (vstr(delta)[:80], vstr(pathv)[:80]))
+            rep.unproven('R1', 'writer/unrecognised-write', e.where(), 'file write whose delta / directory is not recognised: %s (%s)' % (vstr(pathv)[:100], e.via()))
     for scope, want in SPEC_SCOPES.items():
         got = wt.get(scope)
         rep.check(got == want, 'R1', 'writer/' + scope, wwhere, 'scope %s is written to %s' % (scope, '/'.join(want)),
@@ -116,11 +116,6 @@ def run(ctx, rep):
     pc = winfo.get('push_call')
     rep.check(winfo.get('name_parts') == ['NAME', 'SUFFIX'], 'R2', 'writer/file-name', pc.where() if pc else wdw, 'file name = variable name + suffix',
               'the env file name is built as %s, expected [NAME, SUFFIX]' % winfo.get('name_parts'))
-    if pc is not None:
-        recv = strip(sl.operand(wd, pc.args[0]))
-        joined = [strip(sl.operand(wd, c.args[1])) for c in wd.calls if c.name in L.JOIN and wd.in_loop(c.bb)]
-        rep.check(recv in joined, 'R2', 'writer/file-name-used', pc.where(), 'the constructed name is the one joined onto the scope directory',
-                  'the file created is not named by the constructed <name><suffix> string')
     # ---- R3 ------------------------------------------------------------------------------------
     root = L.param_pred(wd, 1)
     rm = [c for c in wd.calls if c.is_('std::fs::remove_dir_all') and root(strip(sl.operand(wd, c.args[0])))]
@@ -140,26 +135,21 @@ def run(ctx, rep):
                 after = rm[0].bb not in wd.reachable(c.bb)
                 rep.check(ok and after, 'R3', 'dir-writer/order/' + c.name, c.where(), '%s happens after the removal point' % c.name.split('::')[-1],
                           '%s can happen before the old directory is removed' % c.name)
-    sites = [s.bb for s in E.sites(wf)]
-    must = E.must_calls(wf, sites)
-    must_w = [(c, fa) for c, fa in must if c.name == L.W_DIR]
-    base_must = {}
-    for c, fa in must_w:
-        cs = L.comps(sl.operand(wf, c.args[1]), L.param_pred(wf, 1))
-        if fa is None and cs is not None:
-            base_must[cs] = c
+    # the per-directory writer runs on every base scope directory on every successful write (also when the new
+    # delta is empty), and on env.launch before the per-process directories inside it
+    md = L.writer_must_dirs(prog, sl)
+    base_must = [cs for cs, fa in md if not fa]
     for scope in ('all', 'build', 'launch'):
         want = SPEC_SCOPES[scope]
         rep.check(want in base_must, 'R3', 'layer-writer/unconditional/' + scope, wwhere,
                   '%s is rewritten on every successful write (also when the new delta is empty)' % '/'.join(want),
                   'the %s directory is not rewritten on every path: stale files of an earlier environment survive' % '/'.join(want))
-    if ('env.launch',) in base_must:
-        lc = base_must[('env.launch',)]
-        for c, scope, cs, delta, pathv in wcalls:
-            if scope == 'process[*]':
-                rep.check(wf.dominates(lc.bb, c.bb), 'R3', 'layer-writer/launch-before-process', c.where(),
-                          'env.launch is rewritten before the per-process directories are created inside it',
-                          'per-process directories are written before env.launch is wiped and recreated')
+    order = [cs for cs, fa in md]
+    if ('env.launch',) in order:
+        procs = [i for i, (cs, fa) in enumerate(md) if len(cs) == 2 and cs[0] == 'env.launch']
+        rep.check(bool(procs) and order.index(('env.launch',)) < min(procs), 'R3', 'layer-writer/launch-before-process', wwhere,
+                  'env.launch is rewritten before the per-process directories are created inside it',
+                  'per-process directories are written before env.launch is wiped and recreated')
     # ---- R4 ------------------------------------------------------------------------------------
     for c in wd.calls:
         if c.is_('std::fs::write'):
